@@ -466,7 +466,7 @@ func TestCheck(t *testing.T) {
 	}
 	r.Set("modifiers_modelled", len(modelled))
 	r.Set("modifiers_unmodelled", unm)
-	n := r.Pick(100000, 2000000)
+	n := r.Pick(100000, 20000000)
 	for i := 0; i < n; i++ {
 		if r.Mine(i) {
 			runCase(r, i)
